@@ -610,11 +610,11 @@ class Body:
             lt = self.operand_term(rv['l'], None, stack)
             rt = self.operand_term(rv['r'], None, stack)
             # fold integer literal arithmetic (`4 + 2 + 16`)
-            if rv['op'] in ('Add', 'Sub', 'Mul') and lt is not None and rt is not None and lt[0] == 'const' and rt[0] == 'const' \
+            if rv['op'] in ('Add', 'Sub', 'Mul', 'Shl') and lt is not None and rt is not None and lt[0] == 'const' and rt[0] == 'const' \
                     and lt[2] is None and rt[2] is None:
                 try:
                     a, b2 = int(lt[1]), int(rt[1])
-                    return ('const', str({'Add': a + b2, 'Sub': a - b2, 'Mul': a * b2}[rv['op']]), None)
+                    return ('const', str({'Add': a + b2, 'Sub': a - b2, 'Mul': a * b2, 'Shl': a << (b2 if 0 <= b2 < 128 else 0)}[rv['op']]), None)
                 except (ValueError, TypeError):
                     pass
             return ('binop', rv['op'], lt, rt)
